@@ -100,6 +100,16 @@ func main() {
 		file = file[0 : len(file)-len(filepath.Ext(in))] // Remove extension.
 
 		target := filepath.Join(options.out, fmt.Sprintf("%s.%s", file, conv.Extension()))
+
+		// The input file must never be replaced by the output (same name in the same directory).
+		if filepath.Base(target) == filepath.Base(in) {
+			inDir, errIn := os.Stat(filepath.Dir(in))
+			outDir, errOut := os.Stat(options.out)
+
+			if errIn == nil && errOut == nil && os.SameFile(inDir, outDir) {
+				panic(fmt.Errorf("output file %s is the input file", target))
+			}
+		}
 		var tempFile *os.File
 		temp := ""
 
